@@ -24,7 +24,7 @@ import (
 	"verif/engine/ksim"
 )
 
-var c17Names = []string{"SetRateLimit(NoWait)", "SetEnabled(NoWait)", "WaitForPendingACKs", "SetBacklogLimit(Wait)", "SetPID(NoWait)", "SetPID(Wait)", "GetRules", "Close"}
+var c17Names = []string{"SetRateLimit(NoWait)", "SetEnabled(NoWait)", "WaitForPendingACKs", "SetBacklogLimit(Wait)", "SetPID(NoWait)", "SetPID(Wait)", "GetRules", "Close", "GetStatus(pid=self)"}
 
 const (
 	aRateNoWait = iota
@@ -35,6 +35,7 @@ const (
 	aPIDWait
 	aGetRules
 	aClose
+	aGetStatusSelf // the kernel's status names THIS process (pid, and every other field a value taken from the running process)
 )
 
 // listingRules: what the simulated kernel holds at the k-th listing.
@@ -159,7 +160,7 @@ func execC17(hist []int, env *envdfs.Env, shape ksim.Shape) (viol []Viol, log st
 		if closed && op != aClose {
 			return nil, "", 0, false // anything but Close after Close is misuse
 		}
-		if (op == aBacklogWait || op == aPIDWait || op == aGetRules) && len(pending) > 0 {
+		if (op == aBacklogWait || op == aPIDWait || op == aGetRules || op == aGetStatusSelf) && len(pending) > 0 {
 			return nil, "", 0, false // WaitForReply while ACKs are pending is misuse
 		}
 		ops++
@@ -182,6 +183,14 @@ func execC17(hist []int, env *envdfs.Env, shape ksim.Shape) (viol []Viol, log st
 		case aPIDWait:
 			err = c.SetPID(libaudit.WaitForReply)
 			usedPID = true
+		case aGetStatusSelf:
+			// values that exist only at run time: this process's pid / parent / uid, the client's own numbers
+			sim.Status = [11]uint32{0x7f, 1, 1, uint32(os.Getpid()), uint32(os.Getppid()), uint32(os.Getuid()), uint32(os.Getpid()), 0, uint32(os.Getpid()), 60000, uint32(os.Getpid())}
+			var stt *libaudit.AuditStatus
+			stt, err = c.GetStatus()
+			if err == nil && (stt == nil || stt.PID != uint32(os.Getpid())) {
+				fail("C17 getstatus-wrong", "GetStatus returned %+v", stt)
+			}
 		case aGetRules:
 			var rules [][]byte
 			// every listing returns different rules (other contents, other lengths, other count)
@@ -573,6 +582,17 @@ func checkC17(tier string, raceBin string) int {
 	var jobs []interface{}
 	for _, c := range chunk(hs, 64) {
 		jobs = append(jobs, Job{Kind: "c17", Histories: c, Bound: bound})
+	}
+	// histories with a GetStatus whose reply names this very process, and transports whose sequence numbers wrap
+	// past 2^32 (and cross 2^31, 2^16) while requests are pending
+	for _, c := range chunk(allHistories([]int{aGetStatusSelf, aRateNoWait, aWaitAcks, aPIDWait, aClose}, 3), 8) {
+		jobs = append(jobs, Job{Kind: "c17", Histories: c, Bound: 1})
+	}
+	wrapH := allHistories([]int{aRateNoWait, aEnabledNoWait, aWaitAcks, aPIDNoWait, aClose}, 5)
+	for _, stt := range []uint32{1<<32 - 3, 1<<32 - 2, 1<<31 - 3, 1<<16 - 3} {
+		for _, c := range chunk(wrapH, 8) {
+			jobs = append(jobs, Job{Kind: "c17", Histories: c, Bound: 1, Shapes: []ksim.Shape{{SeqStart: stt}}})
+		}
 	}
 	// sweeps over what the small alphabet holds constant: every single nlmsg_flags bit on everything the
 	// kernel sends back, and every errno 1..133 (+512..530, 4095) as a verdict, for the short histories in
